@@ -69,6 +69,8 @@ pub enum Ev {
     },
     /// The mutator acted.
     Mut { i: usize, path: String, result: String },
+    /// Walker `w` was dropped before it was exhausted.
+    Dropped { w: usize },
 }
 
 impl Ev {
@@ -80,6 +82,7 @@ impl Ev {
             | Ev::Panic { w, .. }
             | Ev::Budget { w, .. }
             | Ev::Saw { w, .. }
+            | Ev::Dropped { w }
             | Ev::Tap { w, .. } => Some(*w),
             Ev::Mut { .. } => None,
         }
@@ -732,6 +735,10 @@ pub fn execute(sc: &Scenario, world: &World, budget: &[usize]) -> Run {
             Step::W(wi) if wi < its.len() => step_walker(wi, &mut its, &mut calls),
             Step::M(mi) if mi < sc.mutations.len() => {
                 mutator.borrow_mut().apply(mi, &log);
+            },
+            Step::D(wi) if wi < its.len() && its[wi].is_some() => {
+                its[wi] = None;
+                log.borrow_mut().push(Ev::Dropped { w: wi });
             },
             _ => {},
         }
